@@ -198,14 +198,16 @@ class _Collector:
 
     def configs(self, t):
         from .membership import cfg as mcfg
-        specs = [dict(late=(), T=3, D=0), dict(late=(2,), T=4, D=0, warm=4)]
+        specs = [dict(late=(), T=3, D=0), dict(late=(2,), T=4, D=0, warm=4),
+                 dict(late=(), T=3, D=0, warm=6, F=1, faults=['crash'])]     # the Master (or a slave) is lost
         if t == 'thorough':
             specs += [dict(late=(), T=4, D=0), dict(late=(2,), T=5, D=0), dict(late=(2,), T=3, D=1, warm=4),
                       dict(late=(), T=3, D=1)]
         cfgs = []
         for sp in specs:
-            c = mcfg(3, sp['T'], sp['D'], late=sp['late'], rules=True, warm=sp.get('warm', 0),
-                     name=f"c17-gen-late{list(sp['late'])}-T{sp['T']}-D{sp['D']}-warm{sp.get('warm', 0)}")
+            c = mcfg(3, sp['T'], sp['D'], late=sp['late'], rules=True, warm=sp.get('warm', 0), F=sp.get('F', 0),
+                     faults=sp.get('faults', ()),
+                     name=f"c17-gen-late{list(sp['late'])}-T{sp['T']}-D{sp['D']}-warm{sp.get('warm', 0)}-F{sp.get('F', 0)}")
             c['nicks'] = ['n1', 'n2', 'n3']
             c['apps'] = RULES
             c['extra_groups'] = {'U': {'u': {}}}
@@ -263,7 +265,10 @@ def judge(state, role, idx, blob, method, args, pfaults):
     kind = res[0]
     code = res[1] if kind == 'fault' else None
     if kind == 'exc':
-        return viols, res    # internal error: judged by C16
+        # neither served nor rejected with a fault: not a clean failure (the traceback itself is C16's business)
+        viols.append({'clause': 'raw-exception-instead-of-fault', 'signature': f'C17:raw-exception:{method}:{state}',
+                      'result': [str(x)[:200] for x in res]})
+        return viols, res
     gate_open = allowed is None or state in allowed
     if state == 'FINAL' and allowed is FROM_DISTRIBUTION:
         gate_open = None    # "from DISTRIBUTION on": FINAL is left open by the statement
